@@ -24,7 +24,12 @@ def main():
             os.environ['VERIF_SEED'] = str(rec.get('seed', 0))
             from vm import orchestrate
             return orchestrate.run(cid, rec.get('tier', 'quick'))
-        os.environ.setdefault('PYTHONHASHSEED', str(rec.get('hashseed') or 0))
+        want = str(rec.get('hashseed') or 0)
+        if os.environ.get('PYTHONHASHSEED') != want:
+            # the hash seed is fixed at interpreter start: start again
+            os.environ['PYTHONHASHSEED'] = want
+            os.execv(sys.executable, [sys.executable, '-m', 'vm.main'] +
+                     sys.argv[1:])
         mod = importlib.import_module('vm.checks.' + cid.lower())
         ctx = C.Ctx(cid, rec['tier'], rec['seed'], replay=True)
         if hasattr(mod, 'setup'):
